@@ -41,6 +41,28 @@ pub fn scenarios(thorough: bool) -> Vec<Scenario> {
     // cross the activation height by real blocks (a fabricated jump past it would skip the TIP-906 transition)
     tds.pre = vec![Action::Jump(498), Action::Open, Action::Seal(None), Action::Open, Action::Seal(None)];
     v.push(tds);
+    // restarts: a state rebuilt from its block keeps counting (small alphabet, every sealed state may be restarted once)
+    let mut rs = AlphaCfg::base();
+    rs.per_denom = 1;
+    rs.restarts = true;
+    rs.adversarial = false;
+    rs.pairs = false;
+    rs.splits = false;
+    rs.burns = false;
+    rs.overpay = false;
+    rs.faucets = false;
+    rs.max_txs_per_block = 1;
+    rs.seal_actions = vec![None, Some(action_dest(2))];
+    v.push(sc("custom02-utxo-with-restarts", NetID::Custom02, 0, rs.clone(), if thorough { 9 } else { 7 }));
+    let mut rp = pools.clone();
+    rp.restarts = true;
+    rp.swaps = false;
+    rp.mints = false;
+    rp.overpay = false;
+    rp.odd_shapes = false;
+    rp.max_txs_per_block = 1;
+    rp.seal_actions = vec![None];
+    v.push(sc("custom02-pools-with-restarts", NetID::Custom02, 0, rp, if thorough { 9 } else { 7 }));
     v.extend(genesis_scenarios(["custom02-genesis-sym-feepool-stake", "custom02-genesis-erg-fees-stakes", "custom02-genesis-huge-mel-feepool"], NetID::Custom02, &pools, if thorough { 7 } else { 5 }));
     if thorough {
         let mut tp = sc("testnet-activation-pools", NetID::Testnet, 0, pools, 8);
